@@ -1,7 +1,7 @@
 #!/usr/bin/env python3
 """Confirms a seeded change delivered by a sub-agent and files it under /verif/seeded/.
 
-  tools/seed.py <PROPERTY> <k> [--out /tmp/seed/<PROPERTY>-out/<k>] [--pkg <dir of the demo test>] [--checks C01,C05] [--tier quick]
+  tools/seed.py <PROPERTY> <k> [--out /tmp/seed/<PROPERTY>-out/<k>] [--dest <PROPERTY>-<n>] [--pkg <dir of the demo test>] [--checks C01,C05] [--tier quick]
 
 Steps, all in a scratch worktree of /repo (never /repo itself), removed afterwards:
   1. the demo passes on the unchanged tree;
@@ -119,7 +119,7 @@ def main():
             results[cid] = {"tier": tier, "verdict": verdict, "signatures": sorted(set(sig))}
             print("check %s %s: %s %s" % (cid, tier, verdict, sorted(set(sig))))
     meta["checks"] = results
-    dest = "/verif/seeded/%s-%s" % (pid, k)
+    dest = "/verif/seeded/%s" % opt.get("--dest", "%s-%s" % (pid, k))
     os.makedirs(dest, exist_ok=True)
     shutil.copy(patch, dest)
     for d in demos:
